@@ -56,8 +56,10 @@ pub fn classify_open(ctx: &Ctx, w: &World) -> Option<OpenClass> {
                 OpenKind::Increase
             }
         }
+        // a stored record of size 0 is no position: whatever direction it still carries, the order opens one
+        Some(p) if p.size == 0 => OpenKind::Fresh,
         Some(p) => {
-            let cur = if p.size == 0 { 0 } else { pq_u(ctx.preq, "out_whole")? };
+            let cur = pq_u(ctx.preq, "out_whole")?;
             if cur > n {
                 OpenKind::Reduce
             } else {
